@@ -324,6 +324,7 @@ func run(c *hlib.Ctx) {
 	runSplits(c, n/3+1)
 	runEarSeq(c, n/2+1)
 	runFace(c, n/3+1)
+	runFaceRun(c, n+1)
 	runProfile(c, n/6+1)
 }
 
@@ -822,6 +823,27 @@ func embeddings(r interface{ Int63n(int64) int64 }) []emb3 {
 		{"tilt3", func(p ipt) [3]int64 { return [3]int64{2*p.x - p.y + tx, p.y + ty, 3*p.x + 2*p.y + tz} }},
 		// exact rotation by the Pythagorean angle (3,4,5) about x followed by scaling by 5
 		{"pyth", func(p ipt) [3]int64 { return [3]int64{5*p.x + tx, 3*p.y + ty, 4*p.y + tz} }},
+		randomEmbedding(r, tx, ty, tz),
+	}
+}
+
+// randomEmbedding: p -> p.x·u + p.y·w + t for random integer vectors u, w (entries in [-6, 6], not
+// parallel): an exact affine bijection of the plane onto a plane of space in "generic" position
+// (simple stays simple, colinear stays colinear, area ratios preserved; M3d.C14.orient_affine).
+// Nothing is axis-parallel, so every normalisation / projection inside TriangulateFace rounds.
+func randomEmbedding(r interface{ Int63n(int64) int64 }, tx, ty, tz int64) emb3 {
+	for {
+		var u, w [3]int64
+		for a := 0; a < 3; a++ {
+			u[a], w[a] = r.Int63n(13)-6, r.Int63n(13)-6
+		}
+		cx, cy, cz := u[1]*w[2]-u[2]*w[1], u[2]*w[0]-u[0]*w[2], u[0]*w[1]-u[1]*w[0]
+		if cx == 0 && cy == 0 && cz == 0 {
+			continue
+		}
+		return emb3{"rand", func(p ipt) [3]int64 {
+			return [3]int64{p.x*u[0] + p.y*w[0] + tx, p.x*u[1] + p.y*w[1] + ty, p.x*u[2] + p.y*w[2] + tz}
+		}}
 	}
 }
 
@@ -865,112 +887,217 @@ func runFace(c *hlib.Ctx, n int) {
 			}
 		}
 		e := es[ei]
-		c.Stat("face.emb."+e.name, 1)
-		c.Stat("face.scale."+sc.name(), 1)
 		// far placement in space (a third of the exactly representable cases): the lattice integers
 		// are shifted by up to 2^44 lattice units per axis; still exact in float64 (< 2^53), so the
 		// face is exactly the translated planar simple polygon
 		var far [3]int64
 		if sc.f == 0 && c.Rng.Intn(3) == 0 {
-			fx, fy := pickFar(c.Rng, farMinBits, farMaxBitsEar)
-			fz, _ := pickFar(c.Rng, farMinBits, farMaxBitsEar)
-			far = [3]int64{fx, fy, fz}
-			c.Stat("face.far", 1)
+			far = pickFar3(c)
 		}
-		pts := make([][3]int64, len(p))
-		poly := make([]model3d.Coord3D, len(p))
-		ids := map[model3d.Coord3D]int{}
-		var vals []float64
-		for j, q := range p {
-			pts[j] = e.f(q)
-			for a := 0; a < 3; a++ {
-				pts[j][a] += far[a]
-			}
-			poly[j] = model3d.XYZ(sc.apply(float64(pts[j][0])/float64(den)), sc.apply(float64(pts[j][1])/float64(den)),
-				sc.apply(float64(pts[j][2])/float64(den)))
-			ids[poly[j]] = j
-			vals = append(vals, poly[j].X, poly[j].Y, poly[j].Z)
-		}
-		var out []*model3d.Triangle
-		kind := "face"
-		var fail string
-		if c.Rng.Intn(4) == 0 {
-			// the same face as the single polygon of an OFF file, through ReadOFF (vertex table in
-			// a random order, shortest round-tripping decimal representation of every float64)
-			kind = "off"
-			perm := c.Rng.Perm(len(poly))
-			inv := make([]int, len(poly))
-			var off strings.Builder
-			fmt.Fprintf(&off, "OFF\n%d 1 0\n", len(poly))
-			for pos, j := range perm {
-				inv[j] = pos
-				fmt.Fprintf(&off, "%s %s %s\n", strconv.FormatFloat(poly[j].X, 'g', -1, 64),
-					strconv.FormatFloat(poly[j].Y, 'g', -1, 64), strconv.FormatFloat(poly[j].Z, 'g', -1, 64))
-			}
-			fmt.Fprintf(&off, "%d", len(poly))
-			for j := range poly {
-				fmt.Fprintf(&off, " %d", inv[j])
-			}
-			off.WriteString("\n")
-			text := off.String()
-			fail = guarded(func() string {
-				ts, err := model3d.ReadOFF(strings.NewReader(text))
-				if err != nil {
-					return "error"
-				}
-				out = ts
-				return ""
-			})
-		} else {
-			fail = guarded(func() string { out = model3d.TriangulateFace(poly); return "" })
-		}
-		c.Stat("face.via."+kind, 1)
-		var sb strings.Builder
-		if sc.f != 0 {
-			// the rounded float64 coordinates, exactly
-			d, ints := exactInts(vals)
-			fmt.Fprintf(&sb, "c14 %s D %s P %d", kind, d.String(), len(p))
-			for _, v := range ints {
-				fmt.Fprintf(&sb, " %s", v.String())
-			}
-		} else {
-			sb.WriteString("c14 " + kind + " ")
-			if sc.k != 0 {
-				fmt.Fprintf(&sb, "S %d ", sc.k)
-			}
-			fmt.Fprintf(&sb, "D %d P %d", den, len(p))
-			for _, q := range pts {
-				fmt.Fprintf(&sb, " %d %d %d", q[0], q[1], q[2])
-			}
-		}
-		impl := fail
-		if fail != "" {
-			sb.WriteString(" T x")
-		} else {
-			foreign := false
-			tris := make([]itri, len(out))
-			for j, t := range out {
-				for k := 0; k < 3; k++ {
-					id, ok := ids[t[k]]
-					if !ok {
-						foreign = true
-						id = -1
-					}
-					tris[j][k] = id
-				}
-			}
-			if foreign {
-				sb.WriteString(" T f")
-				impl = "foreign-vertex"
-				c.Stat("face.foreign", 1)
-			} else {
-				sb.WriteString(" " + trisField(canonTris(tris, false)))
-				impl = fmt.Sprintf("ok n=%d", len(tris))
-			}
-		}
-		c.Stat("face.cases", 1)
-		c.Emit(sb.String(), impl)
+		emitFace(c, "face", p, den, e, sc, far, c.Rng.Intn(4) == 0)
 	}
+}
+
+// runFaceRun: planar faces whose vertex list STARTS INSIDE OR AT A COLINEAR RUN: an edge of the face
+// carries extra vertices (what T-junction removal, edge subdivision and polygonal exporters produce),
+// and the list starts at the first vertex of that edge (polygon[0], polygon[1], polygon[2] exactly
+// colinear: the vertices TriangulateFace builds its chart from), at one of the extra vertices, or at
+// its last vertex.  The planes are lattice-affine images (half of them random, see randomEmbedding), so
+// the input is EXACTLY planar and EXACTLY colinear where it claims to be, while every intermediate
+// result of TriangulateFace (normalised first edge, the residual of a colinear vertex after
+// ProjectOut: pure rounding noise of length ~1e-16 instead of 0) is rounded.  Same op lines / driver
+// as `face` and `off`.
+func runFaceRun(c *hlib.Ctx, n int) {
+	r := c.Rng
+	for i := 0; i < n; i++ {
+		var p []ipt
+		var fam string
+		for {
+			p, fam = genPoly(c, 8)
+			if r.Intn(4) == 0 {
+				p, fam = gen2opt(r, 1+r.Int63n(12), 3+r.Intn(3)), "tri-quad-pent"
+				if !isSimple(p) {
+					continue
+				}
+			}
+			if len(p) <= 24 {
+				break
+			}
+		}
+		if r.Intn(2) == 0 {
+			p = reversed(p)
+		}
+		// start at a vertex whose outgoing edge is a genuine edge (no straight vertex at its ends is
+		// required, any edge will do), refine the lattice by m and put 1 … m-1 extra vertices on it;
+		// now and then also on other edges
+		p = rotated(p, r.Intn(len(p)))
+		m := int64(2 + r.Intn(4))
+		var q []ipt
+		for j := range p {
+			a := ipt{p[j].x * m, p[j].y * m}
+			b := ipt{p[(j+1)%len(p)].x * m, p[(j+1)%len(p)].y * m}
+			q = append(q, a)
+			if j == 0 || r.Intn(5) == 0 {
+				any := false
+				for t := int64(1); t < m; t++ {
+					if r.Intn(2) == 0 || (t == m-1 && !any && j == 0) {
+						q = append(q, ipt{a.x + (b.x-a.x)/m*t, a.y + (b.y-a.y)/m*t})
+						any = true
+					}
+				}
+			}
+		}
+		// q[0], q[1], q[2] are colinear (q[1] is an extra vertex of the first edge)
+		if orient(q[0], q[1], q[2]) != 0 || !isSimple(q) {
+			panic("runFaceRun: generator broken")
+		}
+		switch r.Intn(6) {
+		case 0: // start at an extra vertex: q[n-1], q[0], q[1] colinear
+			q = rotated(q, 1)
+			c.Stat("facerun.start.inside-run", 1)
+		case 1: // the run ends at the start vertex: the LAST vertices are colinear with the first
+			k := 2
+			for orient(q[0], q[1], q[k]) == 0 {
+				k++
+			}
+			q = rotated(q, k-1)
+			c.Stat("facerun.start.end-of-run", 1)
+		default:
+			c.Stat("facerun.start.first-three-colinear", 1)
+		}
+		c.Stat("facerun.family."+fam, 1)
+		den := randDen(c)
+		es := embeddings(r)
+		var e emb3
+		switch r.Intn(4) {
+		case 0:
+			e = es[r.Intn(len(es))]
+		case 1:
+			e = es[4+r.Intn(len(es)-4)] // tilted
+		default:
+			e = es[len(es)-1] // random plane
+		}
+		var sc scaleSpec
+		if r.Intn(3) == 0 {
+			sc = pickDyadic(r)
+		}
+		var far [3]int64
+		if r.Intn(4) == 0 {
+			far = pickFar3(c)
+		}
+		emitFace(c, "facerun", q, den, e, sc, far, r.Intn(4) == 0)
+	}
+}
+
+func pickFar3(c *hlib.Ctx) [3]int64 {
+	fx, fy := pickFar(c.Rng, farMinBits, farMaxBitsEar)
+	fz, _ := pickFar(c.Rng, farMinBits, farMaxBitsEar)
+	return [3]int64{fx, fy, fz}
+}
+
+// emitFace: one `face` / `off` case.  The lattice polygon p (coordinates /den) is embedded in space by
+// the exact lattice-affine map e, translated by the whole-number vector far, put in the unit sc, and
+// given to TriangulateFace (or, viaOff, written as a one-face OFF file and read by ReadOFF).  stat is
+// the prefix of the distribution counters.
+func emitFace(c *hlib.Ctx, stat string, p []ipt, den int64, e emb3, sc scaleSpec, far [3]int64, viaOff bool) {
+	c.Stat(stat+".emb."+e.name, 1)
+	c.Stat(stat+".scale."+sc.name(), 1)
+	if far != [3]int64{} {
+		c.Stat(stat+".far", 1)
+	}
+	pts := make([][3]int64, len(p))
+	poly := make([]model3d.Coord3D, len(p))
+	ids := map[model3d.Coord3D]int{}
+	var vals []float64
+	for j, q := range p {
+		pts[j] = e.f(q)
+		for a := 0; a < 3; a++ {
+			pts[j][a] += far[a]
+		}
+		poly[j] = model3d.XYZ(sc.apply(float64(pts[j][0])/float64(den)), sc.apply(float64(pts[j][1])/float64(den)),
+			sc.apply(float64(pts[j][2])/float64(den)))
+		ids[poly[j]] = j
+		vals = append(vals, poly[j].X, poly[j].Y, poly[j].Z)
+	}
+	var out []*model3d.Triangle
+	kind := "face"
+	var fail string
+	if viaOff {
+		// the same face as the single polygon of an OFF file, through ReadOFF (vertex table in
+		// a random order, shortest round-tripping decimal representation of every float64)
+		kind = "off"
+		perm := c.Rng.Perm(len(poly))
+		inv := make([]int, len(poly))
+		var off strings.Builder
+		fmt.Fprintf(&off, "OFF\n%d 1 0\n", len(poly))
+		for pos, j := range perm {
+			inv[j] = pos
+			fmt.Fprintf(&off, "%s %s %s\n", strconv.FormatFloat(poly[j].X, 'g', -1, 64),
+				strconv.FormatFloat(poly[j].Y, 'g', -1, 64), strconv.FormatFloat(poly[j].Z, 'g', -1, 64))
+		}
+		fmt.Fprintf(&off, "%d", len(poly))
+		for j := range poly {
+			fmt.Fprintf(&off, " %d", inv[j])
+		}
+		off.WriteString("\n")
+		text := off.String()
+		fail = guarded(func() string {
+			ts, err := model3d.ReadOFF(strings.NewReader(text))
+			if err != nil {
+				return "error"
+			}
+			out = ts
+			return ""
+		})
+	} else {
+		fail = guarded(func() string { out = model3d.TriangulateFace(poly); return "" })
+	}
+	c.Stat(stat+".via."+kind, 1)
+	var sb strings.Builder
+	if sc.f != 0 {
+		// the rounded float64 coordinates, exactly
+		d, ints := exactInts(vals)
+		fmt.Fprintf(&sb, "c14 %s D %s P %d", kind, d.String(), len(p))
+		for _, v := range ints {
+			fmt.Fprintf(&sb, " %s", v.String())
+		}
+	} else {
+		sb.WriteString("c14 " + kind + " ")
+		if sc.k != 0 {
+			fmt.Fprintf(&sb, "S %d ", sc.k)
+		}
+		fmt.Fprintf(&sb, "D %d P %d", den, len(p))
+		for _, q := range pts {
+			fmt.Fprintf(&sb, " %d %d %d", q[0], q[1], q[2])
+		}
+	}
+	impl := fail
+	if fail != "" {
+		sb.WriteString(" T x")
+	} else {
+		foreign := false
+		tris := make([]itri, len(out))
+		for j, t := range out {
+			for k := 0; k < 3; k++ {
+				id, ok := ids[t[k]]
+				if !ok {
+					foreign = true
+					id = -1
+				}
+				tris[j][k] = id
+			}
+		}
+		if foreign {
+			sb.WriteString(" T f")
+			impl = "foreign-vertex"
+			c.Stat(stat+".foreign", 1)
+		} else {
+			sb.WriteString(" " + trisField(canonTris(tris, false)))
+			impl = fmt.Sprintf("ok n=%d", len(tris))
+		}
+	}
+	c.Stat(stat+".cases", 1)
+	c.Emit(sb.String(), impl)
 }
 
 // ---------------------------------------------------------------------------
